@@ -14,8 +14,18 @@ package main
 //                   through a VirtualOS) and must agree on result, output and error; repeated
 //                   MarshalCode calls must give equal bytes; marshal(unmarshal(marshal c)) must
 //                   equal marshal c; UnmarshalCode of the marshaller's output must not fail.
+//                   The reloaded tree must BE the compiled tree (every exported field, IsNamed()
+//                   included: C17_partial_compiled), and no function of the reloaded code may be
+//                   handed more initial locals (parameters + the function itself when
+//                   IsNamed()) than its code has local slots if that held of the compiled code
+//                   (C17_reload_frames_fit) — both evaluated on the real trees, whether or not
+//                   the program happens to call the function.
 // A Spec violation is attributed to a known finding only if the oracle's guard for that
-// finding is false on the exported tree AND Go agrees with the Impl model on the case.
+// finding is false on the exported tree AND Go agrees with the Impl model on the case.  The
+// guard of C17-func-named-main is exact: the tree obeys the compiler's naming discipline
+// (CompileNames, an obligation reported when it fails) and has a function called __main__
+// (compileNames_guard_exact); a name on a code object that is not a named function is not
+// that finding.
 
 import (
 	"bytes"
@@ -305,6 +315,34 @@ func c17ExportStats(root *compiler.Code, st *c17Stats) (nodes, table string, pro
 		}
 	}
 	return sb.String(), c17Table(rootTable, &probs, st, 0), probs
+}
+
+// c17FramesFit evaluates Model.FramesFit on a real tree: vm.callFunction hands the frame of a
+// call the parameters and then, if the code IsNamed(), the function itself; frame.ActivateCode
+// gives the frame exactly LocalsCount() local slots.
+func c17FramesFit(root *compiler.Code) (fits bool, detail string) {
+	fits = true
+	for _, c := range root.Flatten() {
+		for k := 0; k < c.ConstantsCount(); k++ {
+			fn, ok := c.Constant(k).(*compiler.Function)
+			if !ok || fn.Code() == nil {
+				continue
+			}
+			fc := fn.Code()
+			need := fn.ParametersCount()
+			if fc.IsNamed() {
+				need++
+			}
+			if need > fc.LocalsCount() {
+				if fits {
+					detail = fmt.Sprintf("a call of the function constant %s of code %s (code object %s, CodeName()=%q, IsNamed()=%v, %d parameters) hands the frame %d initial locals but the code has %d local slots",
+						fn.ID(), c.ID(), fc.ID(), fc.CodeName(), fc.IsNamed(), fn.ParametersCount(), need, fc.LocalsCount())
+				}
+				fits = false
+			}
+		}
+	}
+	return
 }
 
 // ---------------------------------------------------------------- canonical JSON
@@ -622,6 +660,8 @@ type c17Verdict struct {
 	finding    string
 	guardUtf8  bool
 	guardNamed bool
+	names      bool // CompileNames: the tree obeys the compiler's naming discipline
+	hasMain    bool // HasMainFn: a named function called __main__
 	orig       c17Out
 }
 
@@ -686,17 +726,29 @@ func c17Check(e *Env, src string, run bool, record bool) (v c17Verdict) {
 		mism(p, "representation assumption of the model", "compiled tree outside the model's representation")
 	}
 	rep := strings.Split(e.O.Ask("C17", "rt", nodes, table), "\t")
-	if len(rep) != 11 || rep[0] != "ok" {
+	if len(rep) != 15 || rep[0] != "ok" {
 		mism("exported tree", strings.Join(rep, " ")[:min(200, len(strings.Join(rep, " ")))], "oracle could not decode the request")
 		return
 	}
 	wf, named, utf8ok, mjson, mstatus, mnodes, mtable, mstable, mspec := rep[1] == "1", rep[2] == "1", rep[3] == "1", rep[4], rep[5], rep[6], rep[7], rep[9] == "1", rep[10] == "1"
 	v.guardNamed, v.guardUtf8 = named, utf8ok
+	v.names, v.hasMain = rep[11] == "1", rep[12] == "1"
+	mfits, mfits2 := rep[13] == "1", rep[14]
 	H("guard_utf8", c17_b01(utf8ok))
 	H("guard_named", c17_b01(named))
+	H("guard_has_main_fn", c17_b01(v.hasMain))
+	H("compile_names", c17_b01(v.names))
 	H("model_spec", c17_b01(mspec))
 	if !wf {
 		mism("tree compiled by the real compiler", "WF = false", "compile produced a tree outside WF (unique ids, Flatten order, links), or its sanitised form is")
+	}
+	if !v.names {
+		mism("tree compiled by the real compiler: "+c17NamesDetail(code), "CompileNames = false",
+			"compile produced a tree outside the naming discipline (root = __main__ and unnamed; every other code object IsNamed() exactly when CodeName() != \"\", and CodeName() = the function's own name): isNamed is not serialised, codeFromState recomputes it from the name")
+	}
+	fits1, _ := c17FramesFit(code)
+	if fits1 != mfits {
+		mism("FramesFit="+c17_b01(fits1), "FramesFit="+c17_b01(mfits), "frame fit of the compiled tree differs from the model's")
 	}
 	gj, err := c17CanonJSON(b1)
 	if err != nil {
@@ -728,6 +780,20 @@ func c17Check(e *Env, src string, run bool, record bool) (v c17Verdict) {
 			}
 			if t2 != mtable {
 				mism(c17Diff(t2, mtable), c17Diff(mtable, t2), "reloaded symbol tables differ from the model's")
+			}
+			// Spec on the real trees: the reloaded tree IS the compiled tree
+			if n2 != nodes {
+				v.viol = append(v.viol, "the reloaded code tree differs from the compiled one: reloaded "+c17Diff(n2, nodes)+" | compiled "+c17Diff(nodes, n2)+c17NamedDiff(code, c2))
+			} else if t2 != table {
+				v.viol = append(v.viol, "the reloaded symbol tables differ from the compiled ones: reloaded "+c17Diff(t2, table)+" | compiled "+c17Diff(table, t2))
+			}
+			fits2, why := c17FramesFit(c2)
+			if c17_b01(fits2) != mfits2 {
+				mism("FramesFit="+c17_b01(fits2), "FramesFit="+mfits2, "frame fit of the reloaded tree differs from the model's")
+			}
+			H("frames_fit_compiled/reloaded", c17_b01(fits1)+"/"+c17_b01(fits2))
+			if fits1 && !fits2 {
+				v.viol = append(v.viol, "every function of the compiled code fits its frame, but in the reloaded code "+why+": calling it writes past the frame's locals")
 			}
 		}
 		b2, err := c17Marshal(c2)
@@ -766,12 +832,46 @@ func c17Check(e *Env, src string, run bool, record bool) (v c17Verdict) {
 			switch {
 			case !utf8ok:
 				v.finding = c17FindUtf8
-			case !named:
+			case !named && v.names && v.hasMain:
+				// exact guard (compileNames_guard_exact): a compiled tree that has a function called __main__
 				v.finding = c17FindMain
 			}
 		}
 	}
 	return
+}
+
+// c17NamesDetail names the first code object that breaks the compiler's naming discipline.
+func c17NamesDetail(root *compiler.Code) string {
+	for i, c := range root.Flatten() {
+		switch {
+		case i == 0 && (c.CodeName() != "__main__" || c.IsNamed()):
+			return fmt.Sprintf("root code has CodeName()=%q IsNamed()=%v", c.CodeName(), c.IsNamed())
+		case i > 0 && c.IsNamed() != (c.CodeName() != ""):
+			return fmt.Sprintf("code %s has CodeName()=%q but IsNamed()=%v", c.ID(), c.CodeName(), c.IsNamed())
+		}
+		for k := 0; k < c.ConstantsCount(); k++ {
+			if fn, ok := c.Constant(k).(*compiler.Function); ok && fn.Code() != nil && fn.Code().CodeName() != fn.Name() {
+				return fmt.Sprintf("function %s is called %q but its code %s has CodeName()=%q", fn.ID(), fn.Name(), fn.Code().ID(), fn.Code().CodeName())
+			}
+		}
+	}
+	return "(no single code object found)"
+}
+
+// c17NamedDiff says in words which code objects changed their IsNamed() in the reload.
+func c17NamedDiff(a, b *compiler.Code) string {
+	fa, fb := a.Flatten(), b.Flatten()
+	var out []string
+	for i := 0; i < len(fa) && i < len(fb) && len(out) < 3; i++ {
+		if fa[i].IsNamed() != fb[i].IsNamed() {
+			out = append(out, fmt.Sprintf("code %s (CodeName()=%q): IsNamed() %v -> %v", fa[i].ID(), fa[i].CodeName(), fa[i].IsNamed(), fb[i].IsNamed()))
+		}
+	}
+	if len(out) == 0 {
+		return ""
+	}
+	return " [" + strings.Join(out, "; ") + "]"
 }
 
 func c17Diff(a, b string) string {
@@ -811,6 +911,111 @@ func c17Str(r *RNG) string {
 }
 func c17BadStr(r *RNG) string {
 	return Pick(r, []string{`"\377"`, `"a\200b"`, `"\355\240\200"`, `"\303"`, `"ok\300\257"`, `"\364\220\200\200"`, `"\377\376"`, `"é\351"`})
+}
+
+// c17BoundLiteral: anonymous function literals and the ways a program gets hold of them.  The
+// code object of a literal has no name of its own and no local slot for one; what the variable
+// it is bound to is called, how it is declared (`:=`, `var`, `const`, `=`), whether it is bound
+// at all (argument, result, list element, immediately called), where (top level, function
+// body, if-block, loop body) and whether the literal has locals of its own beyond its
+// parameters are all varied; every literal is CALLED, with all arguments and — when it has a
+// default — with the default.  (Reloaded code must treat all of them like the compiled code:
+// C17_partial_compiled.)
+var c17BoundShape string
+
+func c17BoundLiteral(r *RNG, id int) string {
+	f := fmt.Sprintf("zf%d", id)
+	np := r.Intn(4)
+	params := []string{"za", "zb", "zc"}[:np]
+	hasDefault := np > 0 && r.Chance(35)
+	var ps []string
+	for i, p := range params {
+		if hasDefault && i == np-1 {
+			ps = append(ps, p+"="+Pick(r, []string{c17IntDefault(r), c17Str(r), c17Float(r), "true"}))
+		} else {
+			ps = append(ps, p)
+		}
+	}
+	plist := strings.Join(ps, ", ")
+	free := "" // a variable of the enclosing scope the body may read (set by the placement)
+	ownLocal := r.Chance(25)
+	body := func() string {
+		var terms []string
+		terms = append(terms, params...)
+		if free != "" {
+			terms = append(terms, free)
+		}
+		var ret string
+		switch {
+		case len(terms) == 0:
+			ret = Pick(r, []string{c17Int(r), c17Str(r), c17Float(r), "nil", "[1, 2]"})
+		case r.Chance(50):
+			ret = "[" + strings.Join(terms, ", ") + "]"
+		default:
+			ret = "string(" + strings.Join(terms, ") + string(") + ")"
+		}
+		if ownLocal {
+			return "{\n    zt := " + ret + "\n    return [zt, " + c17Int(r) + "]\n  }"
+		}
+		return "{ return " + ret + " }"
+	}
+	args := func(n int) string {
+		var as []string
+		for i := 0; i < n; i++ {
+			as = append(as, Pick(r, []string{strconv.Itoa(r.Intn(9)), c17Str(r), c17Float(r), "nil"}))
+		}
+		return strings.Join(as, ", ")
+	}
+	calls := func(name string) string {
+		cs := []string{name + "(" + args(np) + ")"}
+		if hasDefault {
+			cs = append(cs, name+"("+args(np-1)+")")
+		}
+		if r.Chance(30) {
+			cs = append(cs, name+"("+args(np)+")")
+		}
+		return strings.Join(cs, ", ")
+	}
+	bind := Pick(r, []string{"decl", "decl", "decl", "var", "var", "const", "const", "assign", "argument", "result", "element", "immediate", "alias", "map-value"})
+	place := Pick(r, []string{"top", "top", "function", "function", "if-block", "loop"})
+	lit := func() string { return "func(" + plist + ") " + body() }
+	// the statements that obtain the literal under the name f (or use it directly) and print its calls
+	stmts := func(indent string) string {
+		switch bind {
+		case "decl":
+			return indent + f + " := " + lit() + "\n" + indent + "print(" + calls(f) + ")"
+		case "var":
+			return indent + "var " + f + " = " + lit() + "\n" + indent + "print(" + calls(f) + ")"
+		case "const":
+			return indent + "const " + f + " = " + lit() + "\n" + indent + "print(" + calls(f) + ")"
+		case "assign":
+			return indent + f + " := nil\n" + indent + f + " = " + lit() + "\n" + indent + "print(" + calls(f) + ")"
+		case "alias":
+			return indent + f + " := " + lit() + "\n" + indent + f + "b := " + f + "\n" + indent + "print(" + calls(f+"b") + ", " + calls(f) + ")"
+		case "argument":
+			return indent + "print(func(zg) { return [" + calls("zg") + "] }(" + lit() + "))"
+		case "result":
+			return indent + f + " := func() { return " + lit() + " }\n" + indent + "print(" + calls(f+"()") + ")"
+		case "element":
+			return indent + f + " := [" + lit() + "]\n" + indent + "print(" + calls(f+"[0]") + ")"
+		case "map-value":
+			return indent + f + " := {\"k\": " + lit() + "}\n" + indent + "print(" + calls(f+"[\"k\"]") + ")"
+		default: // immediate
+			return indent + "print(" + lit() + "(" + args(np) + "))"
+		}
+	}
+	c17BoundShape = fmt.Sprintf("%s/%s/params=%d/default=%v/own-local=%v", bind, place, np, hasDefault, ownLocal)
+	switch place {
+	case "function":
+		free = "zp"
+		return fmt.Sprintf("func zw%d(zp) {\n%s\n  return zp\n}\nprint(zw%d(%d))", id, stmts("  "), id, r.Intn(9))
+	case "if-block":
+		return "if true {\n" + stmts("  ") + "\n}"
+	case "loop":
+		free = "zi"
+		return "for zi := 0; zi < 2; zi++ {\n" + stmts("  ") + "\n}"
+	}
+	return stmts("")
 }
 
 var c17Decos = []c17Deco{
@@ -863,6 +1068,7 @@ var c17Decos = []c17Deco{
 	{"switch-defer", "", func(r *RNG, id int) string {
 		return fmt.Sprintf("func zx%d(v) {\n  defer func() { print(\"done\", v) }()\n  switch v {\n  case 1:\n    return \"one\"\n  case %s:\n    return \"str\"\n  default:\n    return %s\n  }\n}\nprint(zx%d(1), zx%d(2))", id, c17Str(r), c17Float(r), id, id)
 	}},
+	{"bound-function-literal", "", c17BoundLiteral},
 	{"invalid-utf8-const", "utf8", func(r *RNG, id int) string {
 		return fmt.Sprintf("zu%d := %s\nprint(len(zu%d), byte_slice(zu%d))", id, c17BadStr(r), id, id)
 	}},
@@ -900,6 +1106,9 @@ func c17Program(r *RNG, i int) (p *N, decos []string, outside string) {
 		}
 		decos = append(decos, d.name)
 		st := c17Raw(d.gen(r, i*10+j))
+		if d.name == "bound-function-literal" {
+			decos = append(decos, "bound-literal:"+c17BoundShape[:strings.Index(c17BoundShape, "/params")])
+		}
 		pos := r.Intn(len(p.C)) // never after the final value expression
 		p.C = append(p.C[:pos], append([]*N{st}, p.C[pos:]...)...)
 	}
@@ -988,6 +1197,10 @@ var c17Directed = []string{
 	"s := '{1 + 1}é{\"x\"}'\ns",
 	"func mk() {\n  n := 0\n  return [func() { n++; return n }, func() { return n * 10 }]\n}\np := mk()\n[p[0](), p[0](), p[1]()]",
 	"x := [1.0, 0.1, 100.0, 0.30000000000000004, 9007199254740993.0]\nx",
+	// function literals bound by a single-name declaration, without locals of their own, called
+	"add := func(a, b) {\n  return a + b\n}\n[add(1, 2), add(\"x\", \"y\")]",
+	"const k = func() {\n  return 7\n}\nvar v = func(a, b=2) {\n  return [a, b]\n}\n[k(), v(1), v(1, 3)]",
+	"func outer(n) {\n  sq := func(x) { return x * n }\n  return sq(n) + 1\n}\nouter(4)",
 	// the committed replays of the two known findings (kept last: on a changed tree the first
 	// unlisted violation reported should be an ordinary program)
 	"x := \"\\377\"\nprint(len(x), byte_slice(x))\nx",
@@ -1000,7 +1213,12 @@ func c17_runC17(e *Env) {
 	e.R.Rule = "programs of the shared structured generator (functions, closures, loops, switch, containers, strings) with C17-specific " +
 		"top-level statements inserted (defaults of every constant type, closures over two levels, recursion through the function's own " +
 		"name, float/int/string constants incl. non-ASCII, escapes and — in < 15 % of the programs — octal escapes that are not valid UTF-8 " +
-		"or a function called __main__), the directed programs, and every script of the repository (marshalled and compared, not run); " +
+		"or a function called __main__; anonymous function literals with 0–3 parameters, with or without a default and with or without a local of " +
+		"their own, bound by :=, var, const, =, an alias, or not bound at all (argument, result, list element, map value, immediately called), at top " +
+		"level, in a function body, an if-block or a loop body, every one of them called), the directed programs, and every script of the " +
+		"repository (marshalled and compared, not run); on every program the real reloaded tree is compared field by field with the real compiled " +
+		"tree and the frame fit of every function constant (parameters + the function itself when IsNamed() against LocalsCount()) is evaluated " +
+		"on both trees; " +
 		"a case is one program; distinct by its source text; non-trivial when it compiles and has ≥ 3 statement forms or block depth ≥ 3. " +
 		"Sessions: 2–4 compiled programs of mixed size (tiny, directed, one inserted statement, generated) and a sequence of 3–15 " +
 		"MarshalCode(code i)/UnmarshalCode(bytes j) calls over the growing store of retained results (marshal all then reload from the first; " +
@@ -1046,6 +1264,11 @@ func c17_runC17(e *Env) {
 				e.R.H("generated_inside_guards", "yes")
 			} else {
 				e.R.H("generated_inside_guards", "no:"+outside)
+			}
+		}
+		if !v.compiled {
+			for _, d := range decos {
+				e.R.H("inserted_in_programs_that_do_not_compile", d)
 			}
 		}
 		c17Report(e, p, src, v)
